@@ -405,6 +405,9 @@ pub(crate) struct LogReader {
     */
     saw_corruption: bool,
 
+    /// Set when an unfinished record was dropped although more records follow it in the file.
+    dropped_before_end: bool,
+
     /// Set when the end of the file was reached at the end of a complete record.
     reached_clean_end: bool,
 }
@@ -434,6 +437,7 @@ impl LogReader {
             current_block_offset: 0,
             dropped_data: false,
             saw_corruption: false,
+            dropped_before_end: false,
             reached_clean_end: false,
         };
 
@@ -497,12 +501,14 @@ impl LogReader {
                         // The previous record was never finished (e.g. its writer died between
                         // two fragments and a later writer appended to the file).
                         self.dropped_data = true;
+                        self.dropped_before_end = true;
                     }
                     return Ok((record.data, false));
                 }
                 BlockType::First => {
                     if in_fragmented_record {
                         self.dropped_data = true;
+                        self.dropped_before_end = true;
                     }
                     data_buffer = record.data;
                     in_fragmented_record = true;
@@ -533,6 +539,15 @@ impl LogReader {
     /// Returns true if the reader had to skip damaged data (as opposed to unfinished records).
     pub fn saw_corruption(&self) -> bool {
         self.saw_corruption
+    }
+
+    /**
+    Returns true if records were lost from the middle of the log: damaged data, or an unfinished
+    record that is followed by further records. An unfinished record at the very end of the file
+    (a torn tail) does not count.
+    */
+    pub fn lost_records_before_end(&self) -> bool {
+        self.saw_corruption || self.dropped_before_end
     }
 
     /**
